@@ -1,12 +1,134 @@
 package main
 
 import (
+	"fmt"
+	"strconv"
+
 	"verifharness/vh"
 )
 
+// Generator: scenario mixes over 4 workers and 3 files. A light mirror keeps most ops meaningful
+// (descriptor present before write/flush, resume when something is probably parked); the oracle is the
+// Lean model, refusals are decided identically on both sides, so an imprecise mirror only costs coverage.
 func gen(r *vh.Rand, tier string, n int, emit func(vh.Case)) {
 	for i := 0; i < n; i++ {
-		emit(vh.Case{ID: "0", Ops: []string{"mode 0 0 p", "chmod 1 0 644", "resume 0 -"}})
-		return
+		c := vh.Case{ID: strconv.Itoa(i)}
+		type gw struct {
+			fd, write, parked bool
+			file              int
+		}
+		ws := make([]gw, nWorkers)
+		modeParked := -1
+		steps := r.Range(6, 40)
+		if tier == "thorough" {
+			steps = r.Range(6, 90)
+		}
+		lockScenario := r.Chance(1, 6) // File.Mode / ModTime vs SetMode around the schedule point
+		val := 0
+		for k := 0; k < steps; k++ {
+			w := r.Intn(nWorkers)
+			f := r.Intn(3)
+			park := vh.Pick(r, []string{"-", "-", "n", "l", "l"})
+			var op string
+			if lockScenario {
+				switch x := r.Intn(10); {
+				case x < 3:
+					p := "-"
+					if r.Bool() {
+						p = "p"
+					}
+					op = fmt.Sprintf("mode %d %d %s", w, f, p)
+					if p == "p" && modeParked < 0 {
+						modeParked = w
+					}
+				case x < 5:
+					p := "-"
+					if r.Bool() {
+						p = "q"
+					}
+					op = fmt.Sprintf("mtime %d %d %s", w, f, p)
+					if p == "q" && modeParked < 0 {
+						modeParked = w
+					}
+				case x < 8:
+					op = fmt.Sprintf("chmod %d %d %s", w, f, vh.Pick(r, []string{"644", "600", "755", "0", "777"}))
+				default:
+					if modeParked >= 0 {
+						op = fmt.Sprintf("resume %d -", modeParked)
+						modeParked = -1
+					} else {
+						op = fmt.Sprintf("rootcat %d %d", w, f)
+					}
+				}
+				c.Ops = append(c.Ops, op)
+				continue
+			}
+			g := &ws[w]
+			x := r.Intn(100)
+			switch {
+			case g.parked:
+				if x < 70 {
+					op = fmt.Sprintf("resume %d %s", w, park)
+					if park == "-" || r.Bool() {
+						g.parked = false
+						if !g.fd {
+							g.write = false
+						}
+					}
+				} else if x < 85 {
+					op = fmt.Sprintf("pubcat %d", f)
+				} else {
+					op = fmt.Sprintf("rootcat %d %d", (w+1)%nWorkers, f)
+				}
+			case !g.fd:
+				switch {
+				case x < 45:
+					mode := vh.Pick(r, []string{"w", "s", "s", "s", "r"})
+					op = fmt.Sprintf("open %d %d %s", w, f, mode)
+					g.fd, g.write, g.file = true, mode != "r", f
+				case x < 60:
+					op = fmt.Sprintf("cat %d %d", w, f)
+				case x < 75:
+					op = fmt.Sprintf("rootcat %d %d", w, f)
+				case x < 88:
+					op = fmt.Sprintf("pubcat %d", f)
+				case x < 92:
+					op = fmt.Sprintf("ls %d", w)
+				case x < 96:
+					op = fmt.Sprintf("chmod %d %d 644", w, f)
+				default:
+					op = fmt.Sprintf("mode %d %d -", w, f)
+				}
+			default:
+				switch {
+				case x < 35 && g.write:
+					val++
+					op = fmt.Sprintf("write %d %d", w, val)
+				case x < 65:
+					op = fmt.Sprintf("flush %d %s", w, park)
+					g.parked = park != "-"
+				case x < 85:
+					op = fmt.Sprintf("close %d %s", w, park)
+					g.parked = park != "-"
+					g.fd = false
+				case x < 92:
+					op = fmt.Sprintf("pubcat %d", f)
+				default:
+					op = fmt.Sprintf("rootcat %d %d", w, f)
+				}
+			}
+			c.Ops = append(c.Ops, op)
+		}
+		// settle everything, then look at all three views of every file
+		for w := 0; w < nWorkers; w++ {
+			c.Ops = append(c.Ops, fmt.Sprintf("resume %d -", w), fmt.Sprintf("resume %d -", w))
+		}
+		for w := 0; w < nWorkers; w++ {
+			c.Ops = append(c.Ops, fmt.Sprintf("close %d -", w))
+		}
+		for f := 0; f < 3; f++ {
+			c.Ops = append(c.Ops, fmt.Sprintf("cat 0 %d", f), fmt.Sprintf("pubcat %d", f), fmt.Sprintf("rootcat 1 %d", f))
+		}
+		emit(c)
 	}
 }
